@@ -23,6 +23,8 @@ props! {
     "C02" => props::c02::C02,
     "C03" => props::c03::C03,
     "C04" => props::c04::C04,
+    "C05" => props::c05::C05,
+    "C06" => props::c06::C06,
     "C07" => props::c07::C07,
     "C08" => props::c08::C08,
     "C09" => props::c09::C09,
